@@ -1,5 +1,7 @@
 import GBS.Model.SysGen
 import GBS.Lemmas.GenClosed
+import GBS.Lemmas.Termination
+import Mathlib.Tactic.Linarith
 /-!
 # C13 — ensemble generation yields complete member molecules up to the system mass
 -/
@@ -141,5 +143,65 @@ theorem C13_single (fuel : Nat) (cs : List SysComp) (ω : Oracle) (x : Member) (
         · rename_i hop
           ok_inj h; obtain ⟨rfl, -, -⟩ := h
           exact ⟨⟨pickComp_lt hp, by simpa using hop, _, _, _, hg⟩, by simpa using hgen⟩
+
+/-- **C13 (the ensemble loop terminates)**: when every molecule the components can generate weighs at least `μ > 0` and the
+generation of a member never stops for lack of its own fuel, `j` further members with `acc + j·μ > M` are enough: with loop fuel
+`n ≥ j` the `while generated_total_mass < system_mass` loop never runs out of fuel — it ends after at most `⌊M / μ⌋ + 1` members -/
+theorem C13_loop_terminates (fuel : Nat) (cs : List SysComp) (M μ : Rat) (hμ : 0 < μ)
+    (hmass : ∀ i ω m t ω', genMol fuel ((cs.getD i default).els) ω = .ok (some m, t, ω') → μ ≤ m.mass)
+    (hinner : ∀ i ω, genMol fuel ((cs.getD i default).els) ω ≠ .error .outOfFuel) :
+    ∀ (n j : Nat) (acc : Rat) (ω : Oracle), M < acc + j * μ → j ≤ n → sysLoop fuel cs M n acc ω ≠ .error .outOfFuel := by
+  intro n
+  induction n with
+  | zero =>
+    intro j acc ω hM hj h
+    have : j = 0 := by omega
+    subst this
+    simp only [Nat.cast_zero, zero_mul, add_zero] at hM
+    unfold sysLoop at h
+    have : ¬ (acc < M) := by linarith
+    simp [this] at h
+  | succ n ih =>
+    intro j acc ω hM hj h
+    unfold sysLoop at h
+    split at h
+    · cases h
+    · rename_i hlt
+      have hlt' : acc < M := by simpa using hlt
+      split at h
+      · rename_i e he
+        injection h with h; subst h
+        unfold pickComp at he
+        split at he
+        · cases he
+        · split at he
+          · cases he
+          · exact pickFrom_not_fuel _ _ _ he
+      · rename_i i c ω1 hp
+        split at h
+        · rename_i e he
+          injection h with h; subst h
+          exact hinner i ω1 he
+        · cases h
+        · rename_i m t ω2 hg
+          split at h
+          · cases h
+          · split at h
+            · rename_i e he
+              injection h with h; subst h
+              have hm := hmass i ω1 m t ω2 hg
+              -- one member more: `j - 1` further members suffice
+              have hj1 : 1 ≤ j := by
+                by_contra hc
+                have : j = 0 := by omega
+                subst this
+                simp only [Nat.cast_zero, zero_mul, add_zero] at hM
+                linarith
+              obtain ⟨j', rfl⟩ : ∃ j', j = j' + 1 := ⟨j - 1, by omega⟩
+              refine ih j' (acc + m.mass) ω2 ?_ (by omega) he
+              push_cast at hM
+              linarith
+            · cases h
+
 
 end GBS
